@@ -141,7 +141,7 @@ def sites(ctx, fn):
                 from lib import natural_loops
                 loops = natural_loops(b)
             lp = _innermost_loop(loops, bb)
-            if lp is None or bb == lp[0]:
+            if lp is None:
                 return None
             lt_, lf_ = _leaves_iteration_at_once(b, tt, lp), _leaves_iteration_at_once(b, tf, lp)
             if lt_ != lf_:
